@@ -311,6 +311,8 @@ impl Ref {
         }
         self.set_program(prog);
         self.stack.clear();
+        // as on a fresh interpreter fed the listing: functions exist again once their DEF executes
+        self.fns.clear();
         self.data_unknown = true;
     }
 
